@@ -216,3 +216,36 @@ pub fn only_holes_filled(snapshot: &D, elab: &D) -> Result<(), String> {
         }
     }
 }
+
+/// Two programs checked in one scope, so that their terms share a lifetime (gram's `unify` takes
+/// two terms of the same lifetime, and `Term` is invariant in it). `None` if either is rejected.
+pub fn with_two_accepted<R>(text_a: &str, text_b: &str, f: impl for<'t> FnOnce(&Term<'t>, &Term<'t>) -> R) -> Result<Option<R>, String> {
+    let run = |text_a: &str, text_b: &str| -> Result<Option<R>, String> {
+        let ta = match catch(|| crate::tokenizer::tokenize(None, text_a)).map_err(|p| format!("tokenize panicked: {p}"))? {
+            Ok(t) => t,
+            Err(_) => return Ok(None),
+        };
+        let tb = match catch(|| crate::tokenizer::tokenize(None, text_b)).map_err(|p| format!("tokenize panicked: {p}"))? {
+            Ok(t) => t,
+            Err(_) => return Ok(None),
+        };
+        let pa = match catch(|| crate::parser::parse(None, text_a, &ta, &[])).map_err(|p| format!("parse panicked: {p}"))? {
+            Ok(t) => t,
+            Err(_) => return Ok(None),
+        };
+        let pb = match catch(|| crate::parser::parse(None, text_b, &tb, &[])).map_err(|p| format!("parse panicked: {p}"))? {
+            Ok(t) => t,
+            Err(_) => return Ok(None),
+        };
+        let ea = match catch(|| crate::type_checker::type_check(None, text_a, &pa, &mut vec![], &mut vec![])).map_err(|p| format!("type_check panicked: {p}"))? {
+            Ok((e, _)) => e,
+            Err(_) => return Ok(None),
+        };
+        let eb = match catch(|| crate::type_checker::type_check(None, text_b, &pb, &mut vec![], &mut vec![])).map_err(|p| format!("type_check panicked: {p}"))? {
+            Ok((e, _)) => e,
+            Err(_) => return Ok(None),
+        };
+        Ok(Some(f(&ea, &eb)))
+    };
+    run(text_a, text_b)
+}
